@@ -126,7 +126,7 @@ def run_instance(inst):
             if inst["file"] == "spindle":
                 tmp = tempfile.NamedTemporaryFile("w", suffix=".swc", delete=False); tmp.write(SWC_SPINDLE); tmp.close(); fname = tmp.name
             else:
-                fname = os.path.join("/repo/tests/swc_files", inst["file"])
+                fname = os.path.join(harness.REPO, "tests/swc_files", inst["file"])
             n0, calls = inst["n0"], inst["calls"]
             a = jx.read_swc(fname, ncomp=n0, min_radius=inst.get("min_radius"))
             nb = len(a.comb_parents)
@@ -158,7 +158,7 @@ def run_instance(inst):
     else:
         # mixed discretisation of an SWC cell: per-branch invariants
         tot = a.nodes.groupby("global_branch_index")["length"].sum().to_numpy()
-        ref = jx.read_swc(os.path.join("/repo/tests/swc_files", inst["file"]) if inst["file"] != "spindle" else _spindle_file(), ncomp=1)
+        ref = jx.read_swc(os.path.join(harness.REPO, "tests/swc_files", inst["file"]) if inst["file"] != "spindle" else _spindle_file(), ncomp=1)
         tot0 = ref.nodes.groupby("global_branch_index")["length"].sum().to_numpy()
         if not np.allclose(tot, tot0, rtol=1e-9): viol("TABLE", f"total branch lengths changed: {tot} vs {tot0}")
         res["counters"]["lengths_compared"] = 1
@@ -226,7 +226,7 @@ def _expand(inst):
         return inst
     import jaxley as jx
     f = inst["file"]
-    fname = _spindle_file() if f == "spindle" else os.path.join("/repo/tests/swc_files", f)
+    fname = _spindle_file() if f == "spindle" else os.path.join(harness.REPO, "tests/swc_files", f)
     import warnings
     with warnings.catch_warnings():
         warnings.simplefilter("ignore")
